@@ -91,10 +91,20 @@ package githistory
 //@   assumed
 //@   props C12
 //@   modifies fresh, map r.commits
+// C12: the commits are rewritten in the order git-rev-list(1) lists them, and
+// a commit's parents are looked up in the cache of commits rewritten so far;
+// the list therefore has to come parents-first whatever the commit dates say:
+// commits only, topological order, reversed.
 //@ func (*Rewriter).commitsToMigrate
-//@   assumed
 //@   props C12
+//@   requires @inv r != nil && r.db != nil && r.logger != nil && opt != nil
+//@   at call git.NewRevListScanner:1 assert arg2__ != nil && arg2__.Order == git.TopoRevListOrder && arg2__.Reverse && arg2__.CommitsOnly && arg2__.Mode == git.ScanRefsMode
+//@   at call git.NewRevListScanner:1 assert arg0__ == opt.Include && arg1__ == opt.Exclude
+//@ func (*Rewriter).scannerOpts
+//@   props C12
+//@   requires @inv r != nil && r.db != nil
 //@   modifies fresh
+//@   ensures result != nil && result.Order == git.TopoRevListOrder && result.Reverse && result.CommitsOnly && result.Mode == git.ScanRefsMode
 //@ func (*Rewriter).refsToMigrate
 //@   assumed
 //@   props C12
